@@ -453,12 +453,12 @@ def vc_unary_chain(H):
 # =====================================================================================
 def vc_registry_call(H):
     fuc = H.fn(REL, 'Registry.__call__')
-    # (a) multivector operands
-    for wrapper_case in ('none', 'set'):
-        def body(ctx, wrapper_case=wrapper_case):
+    # (a) multivector operands (numeric and symbolic coefficients: the cache is keyed by key patterns only)
+    for wrapper_case, symbolic in (('none', False), ('set', False), ('none', True)):
+        def body(ctx, wrapper_case=wrapper_case, symbolic=symbolic):
             W = _world(ctx, wrapper_case, True, 'Registry')
             ko, fn = _std_lookup(W)
-            mv1, mv2 = _mv('mv1', W['alg'], False), _mv('mv2', W['alg'], False)
+            mv1, mv2 = _mv('mv1', W['alg'], symbolic), _mv('mv2', W['alg'], False)
             inner = mv2
             thunk = sym('thunk', isinstance_of=('Callable',), callable_result=lambda i, m, a, k: inner)
             interp = Interp(ctx, source_name=REL)
@@ -477,7 +477,7 @@ def vc_registry_call(H):
                        same(r, exp), meta={'got': repr(r), 'expected': repr(exp)})
             ctx.oblige('only(C09): frame: operands are not written', not _events(ctx, 'setattr') and not _events(ctx, 'setitem'))
             return r
-        H.run_paths(fuc, f'mvs,wrapper={wrapper_case}', body)
+        H.run_paths(fuc, f'mvs,wrapper={wrapper_case}' + (',symbolic operand' if symbolic else ''), body)
 
     # (b) tape operands (a registered function called inside another registered function)
     def body(ctx):
